@@ -152,3 +152,97 @@ def slice_formula(full, got, start, stop, step, n, step_bound):
 
 def py_slice(full, start, stop, step):
     return full[slice(start, stop, step)]
+
+
+# ----------------------------------------------------------------------------- whole-file comparison with the oracle
+def prop_canon_expected(tcode, value, raw_ts):
+    if tcode == 0x44:
+        sec, frac = value
+        return ('ts', sec, frac) if raw_ts else ('dt64', tm.ts_to_us(sec, frac) - EPOCH_1904_TO_1970_US)
+    if tcode == 0x20:
+        return ('str', value)
+    if tcode == 0x21:
+        return ('bool', bool(value))
+    ch = tm.TYPES[tcode][2]
+    if ch in 'fd':
+        return ('float', struct.pack('<d', struct.unpack('<' + ch, struct.pack('<' + ch, value))[0]).hex())
+    return ('int', int(value))
+
+
+def prop_canon_got(v):
+    import numpy as np
+    if hasattr(v, 'seconds') and hasattr(v, 'second_fractions'):
+        return ('ts', int(v.seconds), int(v.second_fractions))
+    if isinstance(v, np.datetime64):
+        return ('dt64', int(v.astype('datetime64[us]').astype('int64')))
+    if isinstance(v, (bool, np.bool_)):
+        return ('bool', bool(v))
+    if isinstance(v, str):
+        return ('str', v)
+    if isinstance(v, (float, np.floating)):
+        return ('float', struct.pack('<d', float(v)).hex())
+    if isinstance(v, (int, np.integer)):
+        return ('int', int(v))
+    return ('other', repr(v))
+
+
+def expected_dtype(tcode, raw_ts=False):
+    if tcode is None:
+        return 'void64'
+    if tcode == 0x44:
+        return 'raw-timestamp' if raw_ts else 'datetime64[us]'
+    return tm.TYPES[tcode][3]
+
+
+def compare_file(tf, enc, raw_ts=False, expected_values=None, check_data=True):
+    """Compares everything TdmsFile exposes with the oracle.  Returns a list of mismatch dicts (empty = equal).
+    expected_values: optional {path: canonical list} override (truncated files)."""
+    import numpy as np
+    out = []
+    groups, chans = tm.expected_hierarchy(enc)
+    got_groups = [g.name for g in tf.groups()]
+    if got_groups != groups:
+        out.append(dict(what='groups', got=got_groups, expected=groups))
+        return out
+    objs = [('/', tf.properties)]
+    for g in tf.groups():
+        objs.append((tm.make_path(g.name), g.properties))
+        got_ch = [c.name for c in g.channels()]
+        if got_ch != chans.get(g.name, []):
+            out.append(dict(what='channels', group=g.name, got=got_ch, expected=chans.get(g.name, [])))
+            return out
+        for c in g.channels():
+            objs.append((tm.make_path(g.name, c.name), c.properties))
+            if c.path != tm.make_path(g.name, c.name) or c.group_name != g.name:
+                out.append(dict(what='channel-path', got=c.path, expected=tm.make_path(g.name, c.name)))
+    for path, props in objs:
+        exp = enc.props.get(path, {})
+        got = {k: prop_canon_got(v) for k, v in props.items()}
+        want = {k: prop_canon_expected(t, v, raw_ts) for k, (t, v) in exp.items()}
+        if got != want or list(props.keys()) != list(exp.keys()):
+            out.append(dict(what='properties', object=path, got={k: list(v) for k, v in got.items()},
+                            expected={k: list(v) for k, v in want.items()}))
+    if not check_data:
+        return out
+    for g in tf.groups():
+        for c in g.channels():
+            path = tm.make_path(g.name, c.name)
+            ech = enc.channels[path]
+            full = expected_values[path] if expected_values and path in expected_values else \
+                (exp_canon(ech, raw_ts) if ech.tcode is not None else [])
+            if len(c) != len(full):
+                out.append(dict(what='length', channel=path, got=len(c), expected=len(full)))
+                continue
+            arr = c[:]
+            dt = np.asarray(arr).dtype
+            want_dt = expected_dtype(ech.tcode, raw_ts)
+            got_dt = 'raw-timestamp' if (raw_ts and ech.tcode == 0x44) else (dt.newbyteorder('=').name if dt.kind != 'V' else 'void64')
+            if ech.tcode == 0x44 and not raw_ts:
+                got_dt = str(dt.newbyteorder('=')).replace('<', '').replace('>', '').replace('M8', 'datetime64')
+            if got_dt != want_dt:
+                out.append(dict(what='dtype', channel=path, got=got_dt, expected=want_dt))
+                continue
+            vals = got_canon(arr, ech.tcode, raw_ts) if ech.tcode is not None else list(arr)
+            if vals != full:
+                out.append(dict(what='values', channel=path, got=[show(x) for x in vals][:8], expected=[show(x) for x in full][:8]))
+    return out
